@@ -3,17 +3,20 @@
    Proved here, for EVERY snapshot sequence (hence every document): the structural half of the grammar — tags in matching,
    properly nested pairs; no tag at all when text formatting is disabled; counters / cue identifiers 1, 2, 3, ...; begin < end;
    cues in non-decreasing, non-overlapping order; the header and the STYLE block before any cue; and that the writers return a
-   string unless one of the two recorded ValueError findings fires.
-   NOT proved (compared on generated documents only, harness/c07.py): that the recognisers srt_wf / vtt_wf of Spec/CueSpec.v
-   accept the printed string (false of the faithful model for payloads holding "-->", blank-looking lines or out-of-range line
-   percentages: Findings/C07.v), and that `runs` of every payload gives each character its computed style (C07_runs, false for
-   a nested span that resets a style).  Cue settings: the line / align values are proved to be the ones Spec/CueSettings.v
+   string unless the recorded ValueError finding (collapsed interval) fires.
+   Proved too: `runs` of every payload is defined and gives each visible character the style of the tags of its enclosing spans
+   (C07_runs_tags_*: lexing, balance and the tag-stack walk, at string level).
+   Proved too: srt_wf accepts the SubRip file and vtt_wf (strict) the WebVTT file the model prints (C07_srt_wf_partial,
+   C07_vtt_wf_partial, outside the two payload findings).
+   NOT proved (compared on generated documents only, harness/c07.py): that the style values the spans carry after the style filters are the computed styles (false for a nested
+   span that resets a style).  Cue settings: the line / align values are proved to be the ones Spec/CueSettings.v
    prescribes for the region / element process_p is handed, and the region geometry to survive the filters (the C07_cue_settings theorems);
    that this element is the paragraph(s) of the scope is false when paragraphs are merged (Findings/C07.v) and is compared only. *)
 From Coq Require Import Sorting.Sorted.
 From TT Require Import Model.Doc Gen.StyleTables Model.Isd Model.SigTimes Model.TimeCode Model.IsdFilters Gen.CueTables Model.CueWriter.
 From TT Require Import Model.CueTriggers Spec.IsdSpec Spec.CueSpec.
 From TT Require Import Spec.CueSettings Proofs.C06.Text Proofs.C07.Tags Proofs.C07.Order Proofs.C07.Settings Proofs.C07.Escape Proofs.C06.Shape Proofs.C07.Single.
+From TT Require Import Proofs.C06.Fixed Proofs.C06.Strip Proofs.C07.Runs Proofs.C07.Wf Proofs.C07.Flags Proofs.C07.VttWf.
 
 (* tags balanced and properly nested: the items of every cue are built from characters, concatenation and
    <open> ... </close> around nested items, where (open, close) is one of the writer's tag pairs *)
@@ -37,6 +40,43 @@ Theorem C07_vtt_escape_decodes : forall c,
   | _ => esc_vtt c = [c]
   end.
 Proof. exact esc_vtt_decodes. Qed.
+
+(* tags reflect the styles: the payload of every cue, read back by the lexer and the tag-stack walk of Spec/CueSpec.v (srt_runs /
+   vtt_runs), is well formed (the result is Some: every tag is one the grammar knows, every end tag closes the innermost open
+   element, nothing is left open) and gives every visible character exactly the style of the tags of the spans that enclose it in
+   the element list the cue was written from (tree_runs: the span's colour / background class, b, i, u, innermost first).
+   WebVTT: for every text.  SubRip: for text without "<" (no escape mechanism).
+   NOT proved: that the style values the spans carry after the writers' style filters are the computed styles of the snapshot —
+   false for a nested span that resets a style (Findings/C07.v C07_runs_refuted); compared on generated documents (runs_ok). *)
+Theorem C07_runs_tags_srt : forall fmt seq cs, srt_cues fmt seq = Ok cs -> Forall (srt_cue_runs fmt) cs.
+Proof. exact srt_cues_runs. Qed.
+Theorem C07_runs_tags_vtt : forall cfg seq cs css, vtt_cues cfg seq = Ok (cs, css) -> Forall vtt_cue_runs cs.
+Proof. exact vtt_cues_runs. Qed.
+(* from the tags to the style values: in a paragraph without nested resets (no_reset: no span is non-bold inside a bold span, ...;
+   the recorded finding nested-span-resets-style is exactly a reset) the b / i / u flags the walk gives a character are the flags of
+   the innermost span around it — the span whose computed style is the character's style; and the writers' style filters (lists
+   regenerated from the code, every configuration) keep the b / i / u flag of every element whose style map has one binding per
+   property.  Colours are compared on generated documents only. *)
+Theorem C07_runs_flags_partial_srt : forall cs0, forallb (no_reset plain_flags) cs0 = true ->
+  run_flags (flat_map (tree_runs (srt_span_opens true) []) cs0) = flat_map (inner_flags plain_flags) cs0.
+Proof. exact srt_paragraph_flags. Qed.
+Theorem C07_runs_flags_partial_vtt : forall cs0, forallb (no_reset plain_flags) cs0 = true ->
+  run_flags (flat_map (tree_runs vtt_span_opens []) cs0) = flat_map (inner_flags plain_flags) cs0.
+Proof. exact vtt_paragraph_flags. Qed.
+Theorem C07_filters_keep_flags_srt : forall c d, srt_filters = writer_filters true c d -> cfg_keeps c /\ dfl_keeps d.
+Proof. exact srt_cfg_keeps. Qed.
+Theorem C07_filters_keep_flags_vtt : forall cfg fs c d,
+  vtt_filters cfg = Some fs -> fs = writer_filters (negb (line_position cfg)) c d -> cfg_keeps c /\ dfl_keeps d.
+Proof. exact vtt_cfg_keeps. Qed.
+Theorem C07_filter_keeps_flags : forall f a, smap_ok (e_styles a) -> keeps_flag_values f ->
+  span_flags (with_styles a (filter f (e_styles a))) = span_flags a.
+Proof. exact filter_keeps_flags. Qed.
+
+(* the lexers read the flattened payload back item by item: one token per tag, one per character (WebVTT: escapes resolved) *)
+Theorem C07_lex_vtt : forall l, items_ok vtt_tag_lex l -> vtt_lex LText (flat esc_vtt l) = Some (toks vtt_tok l).
+Proof. exact vtt_lex_flat. Qed.
+Theorem C07_lex_srt : forall l, items_ok srt_tag_lex l -> ~ In 60 (chars_of l) -> srt_lex LText (flat esc_none l) = toks srt_tok l.
+Proof. exact srt_lex_flat. Qed.
 
 (* counters: the k-th SubRip cue is printed with the number k; WebVTT cue identifiers, when written, are 1 .. n *)
 Theorem C07_counters_srt : forall cs k ss, srt_strings k cs = Ok ss ->
@@ -70,6 +110,48 @@ Theorem C07_srt_non_overlapping : forall d fmt seq cs ss,
   ForallOrdPairs strictly_before cs.
 Proof. exact srt_cues_strict. Qed.
 
+(* the SubRip file is grammatical: srt_wf of Spec/CueSpec.v (lines, blocks, counter line, timing line, payload lines, counters
+   1, 2, 3, ..., begin < end, order, tags) accepts the string the model prints, for every document that follows the block content
+   model — outside the recorded findings (a payload line that is blank or holds "-->") and for payloads without carriage return and
+   without "<" in the text (srt_cue_printable, executable; it also bounds the times by the 20 hour digits of the model's printer).
+   The timing line is read back to the very millisecond counts. *)
+Theorem C07_timing_line_reads_back : forall sep b e, ms_ok b -> ms_ok e ->
+  parse_timing sep (print_ms sep b ++ arrow ++ print_ms sep e) = Some (b, e, []).
+Proof. exact parse_print_timing. Qed.
+Theorem C07_srt_parse_records : forall rs, Forall srec_ok rs -> srt_parse (join_text [10] (map sr_string rs)) = Some (map sr_cue rs).
+Proof. exact srt_parse_file. Qed.
+Theorem C07_srt_wf_partial : forall d fmt seq cs out,
+  doc_block_wf d = true -> isd_sequence d = Ok seq -> srt_cues fmt seq = Ok cs -> srt_of_seq fmt (Ok seq) = Ok out ->
+  forallb srt_cue_printable cs = true -> Z.of_nat (length cs) < 10 ^ 40 -> srt_wf out = true.
+Proof. exact srt_wf_model. Qed.
+Example C07_srt_wf_satisfiable : exists seq cs out,
+  doc_block_wf w_ruby = true /\ isd_sequence w_ruby = Ok seq /\ srt_cues true seq = Ok cs /\
+  srt_of_seq true (Ok seq) = Ok out /\ forallb srt_cue_printable cs = true /\ cs <> [] /\ srt_wf out = true.
+Proof. exact srt_wf_example. Qed.
+
+(* the WebVTT file is grammatical: vtt_wf of Spec/CueSpec.v (strict: WEBVTT line, blank line, STYLE block before any cue, cue blocks
+   with or without identifier, timing line, cue settings read back and checked, payload lines, identifiers 1, 2, 3, ..., begin < end,
+   order with same-interval cues allowed, tags) accepts the string the model prints in every configuration — outside the recorded
+   findings (a payload line that is empty or holds "-->") and for payloads without carriage return (vtt_cue_printable, executable;
+   it also bounds the times by the 20 hour digits of the model's printer); the cue settings are decided on their whole finite
+   domain (C07_vtt_settings_domain: align x 3, line 0..100 x 3, in which the repaired writer stays: C07_vtt_settings_in_domain). *)
+Theorem C07_vtt_settings_domain :
+  forallb (fun ta => forallb (fun ln => settings_good (vtt_settings_text ta ln)) line_domain) ta_domain = true.
+Proof. exact settings_domain_good. Qed.
+Theorem C07_vtt_settings_in_domain : forall cfg seq cs css, vtt_cues cfg seq = Ok (cs, css) -> Forall (cue_fields_ok cfg) cs.
+Proof. exact vtt_cues_fields. Qed.
+Theorem C07_vtt_parse_records : forall css rs, Forall vrec_ok rs -> rs <> [] ->
+  vtt_parse_blocks true (vtt_file css rs) = Some (style_vblocks css ++ map (fun r => VCue (vr_cue r)) rs).
+Proof. exact vtt_parse_file. Qed.
+Theorem C07_vtt_wf_partial : forall d cfg seq cs css out,
+  isd_sequence d = Ok seq -> vtt_cues cfg seq = Ok (cs, css) -> vtt_of_seq cfg (Ok seq) = Ok out ->
+  forallb vtt_cue_printable cs = true -> Z.of_nat (length cs) < 10 ^ 40 -> cs <> [] -> vtt_wf out = true.
+Proof. exact vtt_wf_model. Qed.
+Example C07_vtt_wf_satisfiable : exists seq cs css out,
+  isd_sequence w_linerange = Ok seq /\ vtt_cues lp seq = Ok (cs, css) /\ vtt_of_seq lp (Ok seq) = Ok out /\
+  forallb vtt_cue_printable cs = true /\ cs <> [] /\ vtt_wf out = true.
+Proof. exact vtt_wf_example. Qed.
+
 (* WEBVTT header, then the STYLE block (if any class was registered), then the cues *)
 Theorem C07_vtt_file_shape : forall cfg seq out, vtt_of_seq cfg (Ok seq) = Ok out ->
   exists cs css ss, vtt_cues cfg seq = Ok (cs, css) /\ vtt_strings cs = Ok ss /\ out = webvtt_header ++ style_block css ++ join_text [10] ss.
@@ -78,17 +160,23 @@ Theorem C07_srt_file_shape : forall fmt seq out, srt_of_seq fmt (Ok seq) = Ok ou
   exists cs ss, srt_cues fmt seq = Ok cs /\ srt_strings 1 cs = Ok ss /\ out = join_text [10] ss.
 Proof. exact srt_file_shape. Qed.
 
-(* the writers do not fail — outside the two recorded findings (a cue whose interval collapses after rounding, a cue of the
-   unbounded last interval that finish() did not reach).  FULL STATEMENT (refuted in Findings/C07.v): without the triggers. *)
-Theorem C07_total_partial_srt : forall fmt seq cs,
-  srt_cues fmt seq = Ok cs -> trig_collapsed cs = false -> trig_unbounded cs = false -> exists out, srt_of_seq fmt (Ok seq) = Ok out.
-Proof. exact srt_total. Qed.
+(* the writers do not fail — outside the recorded finding collapsed-interval (a cue whose interval collapses after rounding to the
+   millisecond).  Every cue has an end: finish() of the repaired WebVTT writer reaches every cue of the unbounded last interval;
+   the SubRip writer has at most one there.  FULL STATEMENT (refuted in Findings/C07.v): without trig_collapsed. *)
+Theorem C07_every_cue_ends_vtt : forall cfg seq cs css, vtt_cues cfg seq = Ok (cs, css) -> trig_unbounded cs = false.
+Proof. exact vtt_cues_bounded. Qed.
+Theorem C07_every_cue_ends_srt : forall d fmt seq cs,
+  doc_block_wf d = true -> isd_sequence d = Ok seq -> srt_cues fmt seq = Ok cs -> trig_unbounded cs = false.
+Proof. exact srt_cues_bounded. Qed.
+Theorem C07_total_partial_srt : forall d fmt seq cs,
+  doc_block_wf d = true -> isd_sequence d = Ok seq -> srt_cues fmt seq = Ok cs -> trig_collapsed cs = false -> exists out, srt_of_seq fmt (Ok seq) = Ok out.
+Proof. exact srt_total_collapsed. Qed.
 Theorem C07_total_partial_vtt : forall cfg seq cs css,
-  vtt_cues cfg seq = Ok (cs, css) -> trig_collapsed cs = false -> trig_unbounded cs = false -> exists out, vtt_of_seq cfg (Ok seq) = Ok out.
-Proof. exact vtt_total. Qed.
+  vtt_cues cfg seq = Ok (cs, css) -> trig_collapsed cs = false -> exists out, vtt_of_seq cfg (Ok seq) = Ok out.
+Proof. exact vtt_total_collapsed. Qed.
 
-(* cue settings.  line: the value written is, in whole percent, the edge of the region that tts:displayAlign selects, with the
-   matching line alignment; align: the value written is the one the element's computed textAlign / direction prescribe *)
+(* cue settings.  line: the value written is, in whole percent and limited to the 0..100 of a WebVTT percentage, the edge of the
+   region that tts:displayAlign selects, with the matching line alignment; align: the value written is the one the element's computed textAlign / direction prescribe *)
 Theorem C07_cue_settings_line : forall ra n k da,
   sget (e_styles ra) p_DisplayAlign = Some (VEnum da) -> line_setting ra = Ok (n, k) ->
   exists q a, spec_line ra = Some (q, a) /\ whole_percent q n = true /\ nth (Z.to_nat k) vtt_line_alignment [] = a.
@@ -100,8 +188,8 @@ Proof. exact textalign_setting_spec. Qed.
 Theorem C07_cue_settings_geometry_kept : forall cfg fs p, line_position cfg = true -> vtt_filters cfg = Some fs -> geometry_prop p ->
   forall rs r', In r' (apply_filters fs rs) -> exists r, In r rs /\ sget (e_styles (eattrs r')) p = sget (e_styles (eattrs r)) p.
 Proof. exact region_geometry_filtered. Qed.
-(* every cue of the output takes its settings (and only the configured ones) from a region of its own filtered snapshot and an
-   element two levels below that region's body *)
+(* every cue of the output takes its settings (and only the configured ones) from a region of its own filtered snapshot and a
+   paragraph that process_div reaches below that region's body *)
 Theorem C07_cue_settings_partial : forall cfg fs seq cs css,
   vtt_filters cfg = Some fs -> vtt_cues cfg seq = Ok (cs, css) -> Forall (cue_settings_sound cfg fs seq) cs.
 Proof. exact vtt_cues_settings. Qed.
@@ -110,12 +198,29 @@ Example C07_hypotheses_satisfiable :
   exists cs, srt_cues true c06_example = Ok cs /\ trig_collapsed cs = false /\ trig_unbounded cs = false /\ cs <> [].
 Proof. exact c07_example_ok. Qed.
 
+(* the witnesses of the repaired defects, on the model *)
+Example C07_fixed_unbounded : exists out cs,
+  vtt_from_model w_unbounded lp = Ok out /\ vtt_wf out = true /\ vtt_parse out = Some cs /\
+  map (fun c => (r_begin c, r_end c)) cs = [(1000, 11000); (1000, 11000)].
+Proof. exact fixed_unbounded. Qed.
+Example C07_fixed_line_range : exists out cs,
+  vtt_from_model w_linerange lp = Ok out /\ vtt_wf out = true /\ vtt_parse out = Some cs /\
+  map r_settings cs = [[32;108;105;110;101;58;49;48;48;37;44;101;110;100]].
+Proof. exact fixed_line_range. Qed.
+
 Print Assumptions C07_tags_balanced_srt.  Print Assumptions C07_tags_balanced_vtt.  Print Assumptions C07_no_tags_when_disabled.
+Print Assumptions C07_runs_tags_srt.  Print Assumptions C07_runs_tags_vtt.  Print Assumptions C07_lex_vtt.  Print Assumptions C07_lex_srt.
+Print Assumptions C07_runs_flags_partial_srt.  Print Assumptions C07_runs_flags_partial_vtt.  Print Assumptions C07_filter_keeps_flags.
+Print Assumptions C07_filters_keep_flags_srt.  Print Assumptions C07_filters_keep_flags_vtt.
 Print Assumptions C07_vtt_text_escaped.  Print Assumptions C07_vtt_escape_decodes.
 Print Assumptions C07_counters_srt.  Print Assumptions C07_counters_vtt.
 Print Assumptions C07_wf_partial_srt.  Print Assumptions C07_wf_partial_vtt.
 Print Assumptions C07_srt_single_cue_per_snapshot.  Print Assumptions C07_srt_non_overlapping.
 Print Assumptions C07_vtt_file_shape.  Print Assumptions C07_srt_file_shape.
+Print Assumptions C07_timing_line_reads_back.  Print Assumptions C07_srt_parse_records.  Print Assumptions C07_srt_wf_partial.
+Print Assumptions C07_vtt_settings_domain.  Print Assumptions C07_vtt_settings_in_domain.  Print Assumptions C07_vtt_parse_records.
+Print Assumptions C07_vtt_wf_partial.
+Print Assumptions C07_every_cue_ends_vtt.  Print Assumptions C07_every_cue_ends_srt.
 Print Assumptions C07_total_partial_srt.  Print Assumptions C07_total_partial_vtt.
 Print Assumptions C07_cue_settings_line.  Print Assumptions C07_cue_settings_align.  Print Assumptions C07_cue_settings_geometry_kept.
 Print Assumptions C07_cue_settings_partial.
